@@ -234,6 +234,20 @@ void harness_payload_step(void)
 	WITNESS_END();
 }
 
+/* a ping whose pong cannot be written: the error is reported once, the connection is released once */
+void harness_ping_write_fails(void)
+{
+	mk_ws(1);
+	WS.ws_flags.mask = 1; WS.ws_flags.fin = 1; WS.ws_flags.rsv = 0; WS.ws_flags.opcode = 9;
+	uint8_t pay[2] = {1, 2}; WS.length = 2;
+	for (int i = 0; i < 4; i++) WS.mask[i] = nd_u8();
+	writev_fail = 1;
+	enum bs_read_callback_return r = ws_get_payload(&WS, pay, 2);
+	CHECK(r == BS_CLOSED && conn_freed, "C12.unanswerable_ping_ends_connection");
+	CHECK(errors_reported == 1, "C05.error_reported_exactly_once");
+	WITNESS_END();
+}
+
 /* ================================================================== unmasking, all alignments */
 #ifndef ULEN
 #define ULEN 19
